@@ -1,7 +1,7 @@
 ------------------------------ MODULE MC_Dict ------------------------------
 (* Bounded model checking of Dict: the builder state machine, and - on every dictionary it   *)
 (* can build - the lemmas relating the evaluable operators to their textbook definitions.    *)
-EXTENDS Dict, TLC
+EXTENDS DictBuild, TLC
 CONSTANTS Bytes, MaxLen
 
 Strings(B, n) == UNION {[1..m -> B] : m \in 0..n}
